@@ -102,7 +102,20 @@ func vGeomIntersects(a, b geometry.Geometry) bool {
 func H_Obj_Dual(p []int) {
 	ka, kb := p[0], p[1]
 	pa, pb := vGPoints("a", 3), vGPoints("b", 3)
+	if len(p) > 2 && p[2] == 1 {
+		// concrete circle (its polygon is then computed by libm on constants, natively): the partner stays symbolic,
+		// so a mis-routed dispatch is decided against a concrete polygon instead of an opaque one
+	}
 	A, B := vObj(ka, pa), vObj(kb, pb)
+	if len(p) > 2 && p[2] == 1 {
+		// a circle some degrees across, so that partners on integer coordinates can overlap it partially
+		if ka == 5 {
+			A = NewCircle(geometry.Point{X: 10, Y: 20}, 500000, 4)
+		}
+		if kb == 5 {
+			B = NewCircle(geometry.Point{X: 10, Y: 20}, 500000, 4)
+		}
+	}
 	vAssert(A.Within(B) == B.Contains(A), "C09.within-is-contains-swapped")
 	vAssert(B.Within(A) == A.Contains(B), "C09.within-is-contains-swapped-2")
 	if ea := vEquiv(ka, pa); ea != nil && ka != 4 {
